@@ -45,7 +45,7 @@ type worldOpts struct {
 	NoBig      bool // never the occasional big world (checks that repeat every case many times)
 }
 
-var namesPlain = gen.NameOpts{Unicode: true, Spaces: true, Slash: true, Punct: ".,;'()&%+*=!?@_-#{}<>`|^~$[]", MaxLen: 10}
+var namesPlain = gen.NameOpts{Unicode: true, Spaces: true, Slash: true, Punct: ".,;'()&%+*=!?@_-#{}<>`|^~$[]", MaxLen: 10, EdgeBlanks: true}
 
 func newWorld(r *rand.Rand, o worldOpts) *World {
 	if o.MaxDays == 0 {
@@ -287,11 +287,16 @@ func caseVariant(s string) string {
 }
 
 func (w *World) Files() map[string]string {
+	// plus files in the working directory named like values the program knows as words (the default template name,
+	// keywords, a sub-command): a name given as an option value is that value, not a path to look up
+	fs := map[string]string{"food.yaml": w.BookText, "log.yaml": w.LogText, "default": worldDecoy, "left-aligned": worldDecoy, "today": worldDecoy, "yesterday": worldDecoy, "totals": worldDecoy}
 	if w.Conf != "" {
-		return map[string]string{"food.yaml": w.BookText, "log.yaml": w.LogText, "hr.conf": w.Conf}
+		fs["hr.conf"] = w.Conf
 	}
-	return map[string]string{"food.yaml": w.BookText, "log.yaml": w.LogText}
+	return fs
 }
+
+const worldDecoy = "this file has nothing to do with the diary {{ .Broken\n  decoy: 1\n"
 
 // base is withBase plus the configuration file the world's files need.
 func (w *World) base(extra ...string) []string {
